@@ -178,7 +178,7 @@ def check_mutate(ctx):
                           f"{short(c, 1)} on {short(sty, 1)} entry: {MUTATE_CALLERS_OK.get(base, '')}",
                           f"{short(base, 2)} calls {short(c, 1)} on an {short(sty, 1)} entry (line {ln}): attributes of an already validated entry are "
                           f"changed in place without re-validation, and the caller is not on the allow-list")
-    ctx.floor(rule, "in-place mutations of validated entries", n, 4)
+    ctx.floor(rule, "in-place mutations of validated entries", n, 2)
     # direct writes to `.attrs` of a validated / generic entry
     m = 0
     for nm in F.fns_mentioning(LIB, '"f":"attrs"'):
